@@ -30,12 +30,14 @@ import (
 )
 
 const (
-	quickWorlds    = 1000
-	thoroughWorlds = 15000
-	reqsPerWorld   = 50
-	quickPiles     = 200
-	thoroughPiles  = 4000
-	reqsPerPile    = 120
+	quickWorlds     = 1000
+	thoroughWorlds  = 15000
+	reqsPerWorld    = 50
+	quickMultiGW    = 150
+	thoroughMultiGW = 3000
+	quickPiles      = 200
+	thoroughPiles   = 4000
+	reqsPerPile     = 120
 )
 
 func main() {
@@ -47,7 +49,7 @@ func main() {
 			"(NewConfigGenTest + BuildListeners + BuildHTTPRoutes) produces RDS for two sidecars and one gateway proxy; ~50 requests per world are " +
 			"built from the literals of every match block plus near misses and evaluated by (A) a VirtualService evaluator written from the API " +
 			"reference and (B) an Envoy route interpreter over the emitted protos, on the route configuration the listener of that port references. " +
-			"Plus a 'pile' stratum: 2-3 VirtualServices with the same host merged on one gateway (or one big mesh VirtualService), 5-17 rules with nested path matches and mid-list catch-alls, ~120 requests each, so that only rule order decides. " +
+			"Plus a 'multigw' stratum (one VirtualService bound to two Gateways of the same workload and port under different hosts, rules scoped by match-level gateways) and a 'pile' stratum: 2-3 VirtualServices with the same host merged on one gateway (or one big mesh VirtualService), 5-17 rules with nested path matches and mid-list catch-alls, ~120 requests each, so that only rule order decides. " +
 			"A case is non-trivial when at least one asserted request was decided by a VirtualService rule (not a default route); distinct = hash of the VirtualService set.",
 		Assumptions: []string{
 			"trusted base: the engine's two reference interpreters (vsref.go from istio.io/api networking/v1alpha3 comments and the operations guide; envoyref.go from the Envoy v3 route API docs), Go regexp as RE2",
@@ -145,6 +147,54 @@ func run(c *vh.Ctx) {
 				c.Nontrivial(vh.Hash(worldJSON(w)))
 			}
 			c.Sample(map[string]any{"world": worldJSON(w), "requests_asserted": res.asserted, "decided_by_vs_rule": res.decidedByRule})
+			for _, v := range res.viols {
+				payload := v.payload
+				if onlyKey != "" && !strings.Contains(v.key, onlyKey) {
+					continue
+				}
+				if minAll || (minimised[v.key] < 1 && len(minimised) < 6) {
+					minimised[v.key]++
+					if mw, mreq := minimise(w, v); mw != nil {
+						payload["minimised_world"] = worldJSON(mw)
+						payload["minimised_request"] = mreq
+					}
+				}
+				c.Violation(v.key, v.msg, payload)
+			}
+		})
+	}
+	// multigw stratum: one VirtualService bound to two Gateways of the same workload and port (world.go genMultiGW)
+	for i := 0; i < c.N(quickMultiGW, thoroughMultiGW); i++ {
+		if !c.Mine(i) {
+			continue
+		}
+		c.Case(fmt.Sprintf("multigw-%d", i), func() {
+			r := c.Rng("multigw", i)
+			w := genWorld(r)
+			for _, v := range genMultiGW(r, w) {
+				w.Generated++
+				if _, err := validation.ValidateVirtualService(vsConfig(v)); err != nil {
+					w.Rejected++
+					c.SetAdd("rejection_reasons", firstReason(err))
+					continue
+				}
+				w.VS = append(w.VS, v)
+			}
+			for _, cfg := range w.baseConfigs() {
+				if cfg.GroupVersionKind.Kind == "Gateway" {
+					if _, err := validation.ValidateGateway(cfg); err != nil {
+						vh.Abort("generator produced an invalid Gateway: %v", err)
+					}
+				}
+			}
+			c.Count("multigw_sets", 1)
+			c.Count("vs_generated", w.Generated)
+			c.Count("vs_rejected_by_validation", w.Rejected)
+			c.Count("vs_accepted", len(w.VS))
+			res := checkWorld(c, w, c.Rng("multigw-requests", i), reqsPerPile, debug)
+			if res.decidedByRule > 0 {
+				c.Nontrivial(vh.Hash(worldJSON(w)))
+			}
 			for _, v := range res.viols {
 				payload := v.payload
 				if onlyKey != "" && !strings.Contains(v.key, onlyKey) {
